@@ -21,7 +21,7 @@ func init() {
 		ID:    "C08",
 		Level: "exploration",
 		Rule: "generated documents under hostile admissible layouts (mixed LF/CRLF per line, whitespace-only lines, 0-3 leading/trailing blank lines, missing final newline, trailing blanks) are additionally decorated with bytes that keep them acceptable " +
-			"(invalid UTF-8, NUL, lone CR, U+FFFD inside summaries); every text klog accepts is checked with the serial and a parallel engine: concatenation of all block lines (text+ending) == input bytes, " +
+			"(invalid UTF-8, NUL, lone CR, U+FFFD inside summaries); every text klog accepts is checked with the serial and a parallel engine (every 6th text with ALL worker counts 2..40): concatenation of all block lines (text+ending) == input bytes, " +
 			"global line indices 0,1,2,…, exactly one run of significant lines per block (harness's own blank test), #blocks == #records, and a reconcile that applies no operation " +
 			"(ApplyReconciler at every record; ReconcileFile on disk for a sample) returns / writes the identical bytes. blank-only texts must yield no blocks. " +
 			"non-trivial & distinct = accepted texts with >=2 blocks and >=2 of {CRLF, whitespace-only line, no final newline, non-UTF-8 byte, leading blank lines}, by hash",
@@ -106,6 +106,15 @@ func c08Check(e *core.Env, r *core.Rand, text string, decorated bool, idx int64)
 		p    parser.Parser
 	}{{"serial", parser.NewSerialParser()}, {fmt.Sprintf("parallel(%d)", r.Range(2, 12)), nil}}
 	engines[1].p = parser.NewParallelParser(r.Range(2, 12))
+	if idx%6 == 0 {
+		// sweep of worker counts: every chunk boundary position of this text occurs for some count
+		for n := 2; n <= 40 && n <= len(text)+1; n++ {
+			engines = append(engines, struct {
+				name string
+				p    parser.Parser
+			}{fmt.Sprintf("parallel(%d)", n), parser.NewParallelParser(n)})
+		}
+	}
 	blankOnly := strings.Trim(text, " \t\r\n") == "" && !strings.Contains(strings.ReplaceAll(text, "\r\n", "\n"), "\r")
 	for _, en := range engines {
 		var rs []klog.Record
@@ -175,6 +184,30 @@ func c08Check(e *core.Env, r *core.Rand, text string, decorated bool, idx int64)
 			}
 			if runs != 1 {
 				e.Violation("block-membership", fmt.Sprintf("%s: block #%d contains %d runs of significant lines (must be exactly one record's lines plus adjacent blank lines)", en.name, bi, runs), w)
+			}
+		}
+		// the k-th block line must BE the k-th physical line of the file (text and ending), as the harness's own splitter sees it
+		if phys := ref.SplitLines(text); sb.String() == text {
+			k := 0
+			for bi, b := range blocks {
+				for _, l := range b {
+					if k >= len(phys) || phys[k].Text != l.Text || phys[k].Ending != l.Ending {
+						want := "<none: the file has fewer lines>"
+						if k < len(phys) {
+							want = fmt.Sprintf("%q+%q", phys[k].Text, phys[k].Ending)
+						}
+						e.Violation("block-lines-are-not-the-files-lines", fmt.Sprintf("%s: block #%d holds as line %d %q+%q, the file's line %d is %s", en.name, bi, k+1, l.Text, l.Ending, k+1, want), w)
+						k = -1
+						break
+					}
+					k++
+				}
+				if k < 0 {
+					break
+				}
+			}
+			if k >= 0 && k != len(phys) {
+				e.Violation("block-lines-are-not-the-files-lines", fmt.Sprintf("%s: blocks hold %d lines, the file has %d", en.name, k, len(phys)), w)
 			}
 		}
 		if sb.String() != text {
